@@ -90,7 +90,22 @@ func c09(c *ev.Ctx) {
 		if !c.Want(id) {
 			return
 		}
-		ctx, cancel := context.WithCancel(context.Background())
+		// every way a context can be cancelled while the script runs: plain cancel,
+		// cancel of a context that also has a (distant) deadline, cancel of a parent
+		var ctx context.Context
+		var cancel context.CancelFunc
+		switch i % 4 {
+		case 0:
+			ctx, cancel = context.WithCancel(context.Background())
+		case 1:
+			ctx, cancel = context.WithTimeout(context.Background(), time.Hour)
+		case 2:
+			ctx, cancel = context.WithDeadline(context.Background(), time.Now().Add(24*time.Hour))
+		default:
+			parent, pc := context.WithCancel(context.Background())
+			child, cc := context.WithTimeout(parent, time.Hour)
+			ctx, cancel = child, func() { pc(); cc() }
+		}
 		defer cancel()
 		evr, err := eng.New(lp.script, eng.Options{Ctx: ctx, NoOptimize: j.noOpt, Budget: j.k + c09Bound + 10})
 		if err != nil {
